@@ -12,11 +12,16 @@ flt=args[0] if args else ''
 muts=json.load(open('/verif/selftest/mutants.json'))
 ok=True
 results=[]
+# one snapshot of /repo for the whole run: /repo may change (seed patches, fix commits) while this runs
+base=tempfile.mkdtemp(prefix='mut.base.',dir='/tmp')
+subprocess.run(['rsync','-a','--exclude','.git','/repo/',base+'/'],check=True)
+import atexit
+atexit.register(lambda: shutil.rmtree(base,ignore_errors=True))
 for m in muts:
     if flt and flt not in m['name']: continue
     d=tempfile.mkdtemp(prefix='mut.',dir='/tmp')
     try:
-        subprocess.run(['rsync','-a','--exclude','.git','/repo/',d+'/'],check=True)
+        subprocess.run(['rsync','-a',base+'/',d+'/'],check=True)
         p=os.path.join(d,m['file']); s=open(p).read()
         if m['old'] not in s:
             print(f"{m['name']}: PATTERN NOT FOUND"); ok=False; continue
